@@ -89,6 +89,64 @@ func (c *FnCtx) cloneInto(st *State, t types.Type, src, dst string, depth int) {
 	}
 }
 
+// flatMergeable: the message consists of scalar fields and pointers to messages that are flatMergeable themselves
+// (no repeated, map, oneof, bytes or optional-scalar fields), to a nesting depth of 2.
+func flatMergeable(t types.Type, depth int) bool {
+	st, ok := t.Underlying().(*types.Struct)
+	if !ok || depth > 2 {
+		return false
+	}
+	for k := 0; k < st.NumFields(); k++ {
+		f := st.Field(k)
+		switch f.Name() {
+		case "state", "sizeCache", "unknownFields":
+			continue
+		}
+		switch u := f.Type().Underlying().(type) {
+		case *types.Basic:
+		case *types.Pointer:
+			if !isMessageStruct(u.Elem()) || !flatMergeable(u.Elem(), depth+1) {
+				return false
+			}
+		default:
+			return false
+		}
+	}
+	return true
+}
+
+// mergeInto: proto.Merge(dst, src) on a flatMergeable message type, field by field, effective only where cond holds:
+// a set (non-zero) scalar of src overwrites dst's; a set sub-message is merged into dst's, or cloned when dst has none.
+func (c *FnCtx) mergeInto(st *State, t types.Type, src, dst, cond string, depth int) {
+	s := t.Underlying().(*types.Struct)
+	for k := 0; k < s.NumFields(); k++ {
+		f := s.Field(k)
+		switch f.Name() {
+		case "state", "sizeCache", "unknownFields":
+			continue
+		}
+		ft := f.Type()
+		h := c.fieldHeap(t, k)
+		sv := c.sc.Define("mrg$s", c.ty.SortOf(ft), "(select "+c.heapGet(st, h)+" "+src+")")
+		dv := c.sc.Define("mrg$d", c.ty.SortOf(ft), "(select "+c.heapGet(st, h)+" "+dst+")")
+		var nv string
+		switch u := ft.Underlying().(type) {
+		case *types.Pointer:
+			nr := c.newRef(st, "merge$"+f.Name())
+			c.cloneInto(st, u.Elem(), sv, nr, depth+1)
+			mh := c.msgHeap()
+			c.heapSet(st, mh, "(store "+c.heapGet(st, mh)+" "+nr+" "+c.msgVal(st, sv)+")")
+			both := c.sc.Define("mrg$both", sBool, And(cond, "(not (= "+sv+" 0))", "(not (= "+dv+" 0))"))
+			c.mergeInto(st, u.Elem(), sv, dv, both, depth+1)
+			c.heapSet(st, mh, "(store "+c.heapGet(st, mh)+" "+dv+" "+Ite(both, "(|mergeval| "+c.msgVal(st, dv)+" "+c.msgVal(st, sv)+")", c.msgVal(st, dv))+")")
+			nv = Ite(And(cond, "(not (= "+sv+" 0))", "(= "+dv+" 0)"), nr, dv)
+		default:
+			nv = Ite(And(cond, "(not (= "+sv+" "+c.ty.Zero(ft)+"))"), sv, dv)
+		}
+		c.heapSet(st, h, "(store "+c.heapGet(st, h)+" "+dst+" "+nv+")")
+	}
+}
+
 func derefMsgType(t types.Type) types.Type {
 	if t == nil {
 		return nil
@@ -150,6 +208,12 @@ func init() {
 		c.sc.Decl("mergeval", "(declare-fun |mergeval| (Int Int) Int)")
 		mh := c.msgHeap()
 		nv := "(|mergeval| " + c.msgVal(st, "(i-val "+dst.E+")") + " " + c.msgVal(st, "(i-val "+src.E+")") + ")"
+		if mt := derefMsgType(dst.Dyn); mt != nil && derefMsgType(src.Dyn) != nil && types.Identical(mt, derefMsgType(src.Dyn)) && flatMergeable(mt, 0) {
+			// field-precise merge for messages made of scalars and (nested) such messages
+			c.mergeInto(st, mt, "(i-val "+src.E+")", "(i-val "+dst.E+")", "true", 0)
+			c.heapSet(st, mh, "(store "+c.heapGet(st, mh)+" (i-val "+dst.E+") "+nv+")")
+			return nil
+		}
 		c.eng.havocMessageFieldsFrom(c, st, "merge", dst.FreshFrom)
 		c.heapSet(st, mh, "(store "+c.heapGet(st, mh)+" (i-val "+dst.E+") "+nv+")")
 		return nil
@@ -160,7 +224,12 @@ func init() {
 		c.eng.onMessageWrite(c, st, dst, "proto.Reset", pos)
 		c.sc.Decl("emptyval", "(declare-fun |emptyval| (Int) Int)")
 		mh := c.msgHeap()
-		c.eng.havocMessageFieldsFrom(c, st, "reset", dst.FreshFrom)
+		if mt := derefMsgType(dst.Dyn); mt != nil {
+			// every field of the message itself becomes its zero value; nothing else is written
+			c.storeStruct(st, mt, "(i-val "+dst.E+")", c.ty.Zero(mt))
+		} else {
+			c.eng.havocMessageFieldsFrom(c, st, "reset", dst.FreshFrom)
+		}
 		c.heapSet(st, mh, "(store "+c.heapGet(st, mh)+" (i-val "+dst.E+") (|emptyval| (i-tag "+dst.E+")))")
 		return nil
 	}
